@@ -111,6 +111,25 @@ Theorem C06_sign_then_verify_holds : forall l r j, sign_accept l r j = true -> a
 Proof. exact sign_then_verify. Qed.
 Print Assumptions C06_sign_then_verify_holds.
 
+(* (3'') stored rows. Any store that is only written by whole-row operations (insert unless the key
+   exists, replace by key, delete by key, append) keeps the invariant "every stored row is one that
+   verify() accepted as a whole" — for every history; and its instance for sys.Peer rows written by
+   add_peer_nodes on any number of instances: whatever is stored or served by get_peer_node verifies.
+   (Partial: that Node::write, Edge::write and the deletion logs ARE whole-row writes is tied to the
+   code by the harness' stored-row cases, where every stored and served row goes through the real
+   verify(); only PeerNodes::write is compared column by column.) *)
+Theorem C06_stored_whole_rows_partial : forall (row : Type) (same_key : row -> row -> bool) (V : row -> bool) ops s,
+  Forall (fun r => V r = true) s ->
+  Forall (fun o => match wrow row o with Some r => V r = true | None => True end) ops ->
+  Forall (fun r => V r = true) (fold_left (wstep row same_key) ops s).
+Proof. exact whole_rows_invariant. Qed.
+Print Assumptions C06_stored_whole_rows_partial.
+
+Theorem C06_stored_peer_rows_hold : forall rows init ops,
+  Forall (fun st => Forall (fun r => Stored.verifies rows r = true) st) (peer_run rows init ops).
+Proof. exact peer_stores_verified. Qed.
+Print Assumptions C06_stored_peer_rows_hold.
+
 (* (4) every field of the six signed structures, the signature excepted, is part of the digest *)
 Theorem C06_all_fields_signed : all_fields_hashed = true.
 Proof. exact all_fields_hashed_ok. Qed.
